@@ -6,14 +6,14 @@
 /// Check for `assertion`: "assertion failed: c.map(|x| x as u64) == if nl == 0 { None } else { Some(col - 1) }"
 
 #[test]
-fn kani_concrete_playback_c01_q_a1_arbitrary_3_2623244652818654765() {
+fn kani_concrete_playback_c01_q_a1_arbitrary_3_5591254229610435114() {
     let concrete_vals: Vec<Vec<u8>> = vec![
-        // 116
-        vec![116],
-        // 48
-        vec![48],
-        // 50
-        vec![50],
+        // 97
+        vec![97],
+        // 102
+        vec![102],
+        // 49
+        vec![49],
     ];
     kani::concrete_playback_run(concrete_vals, c01_q_a1_arbitrary_3);
 }
@@ -23,14 +23,14 @@ fn kani_concrete_playback_c01_q_a1_arbitrary_3_2623244652818654765() {
 /// Check for `cover`: "end"
 
 #[test]
-fn kani_concrete_playback_c01_q_a1_arbitrary_3_15713174117484766964() {
+fn kani_concrete_playback_c01_q_a1_arbitrary_3_13060641195937703349() {
     let concrete_vals: Vec<Vec<u8>> = vec![
-        // 74
-        vec![74],
-        // 53
-        vec![53],
-        // 54
-        vec![54],
+        // 88
+        vec![88],
+        // 75
+        vec![75],
+        // 50
+        vec![50],
     ];
     kani::concrete_playback_run(concrete_vals, c01_q_a1_arbitrary_3);
 }
